@@ -367,6 +367,13 @@ package codegen
 //@   ensures recv._stack == old(recv._stack) && recv._lex == old(recv._lex)
 //@   modifies *recv
 //
+// _onBounds is the user's method of the bounds variant: like an action it may touch the
+// user's own fields and leaves the parser's own state alone.
+//@ func @._onBounds
+//@   trusted
+//@   ensures recv._stack == old(recv._stack) && recv._lex == old(recv._lex) && recv._la == old(recv._la) && recv._lasym == old(recv._lasym) && recv._qla == old(recv._qla) && recv._qlasym == old(recv._qlasym) && recv._stuck == old(recv._stuck)
+//@   modifies *recv
+//
 //@ func @._makeError
 //@   requires !isnil(p) && typeis(p._lasym, Token) && wfTables() && len(p._stack) >= 1 && validState(p._stack[len(p._stack) - 1].State)
 //@   ensures result.Token == unbox(p._lasym, Token)
@@ -442,6 +449,18 @@ package codegen
 //@   loop 0 invariant forall k int :: {p._stack[k]} 0 <= k && k < len(p._stack) ==> validState(p._stack[k].State)
 //@   loop 0 invariant forall k int, q int32, d int :: {item(p._stack[k].State, q, d)} 0 <= k && k < len(p._stack) && item(p._stack[k].State, q, d) ==> 0 <= d && d <= k && item(p._stack[k - d].State, q, 0)
 //@   loop 0 invariant unchangedOld(elems(int32)) && unchangedOld(fields(Self), *p)
+//   bounds variant only (C16): boundSlice is a window [lo, lo+len) of the reduced segment
+//   [L-n, L) of the stack; what was trimmed on either side is empty; _onBounds is called
+//   with the Begin of the first and the End of the last non-empty item of the segment.
+//@   let L = len(p._stack)
+//@   let n = int(termCount)
+//@   let lo = off(boundSlice) - off(p._stack)
+//@   let window = base(boundSlice) == base(p._stack) && L - n <= lo && len(boundSlice) >= 0 && lo + len(boundSlice) <= L && (forall k int :: {p._stack[k]} L - n <= k && k < lo ==> p._stack[k].Bounds.Empty)
+//@   loop 1 invariant window && lo + len(boundSlice) == L
+//@   loop 2 invariant window && (len(boundSlice) == 0 || !p._stack[lo].Bounds.Empty) && (forall k int :: {p._stack[k]} lo + len(boundSlice) <= k && k < L ==> p._stack[k].Bounds.Empty)
+//@   call @._onBounds 0 hint len(boundSlice) >= 1 && p._stack[lo + len(boundSlice) - 1] == boundSlice[len(boundSlice) - 1] && p._stack[lo] == boundSlice[0]
+//@   call @._onBounds 0 requires exists i int :: L - n <= i && i < L && !p._stack[i].Bounds.Empty && arg1 == p._stack[i].Bounds.Begin && (forall k int :: {p._stack[k]} L - n <= k && k < i ==> p._stack[k].Bounds.Empty)
+//@   call @._onBounds 0 requires exists j int :: L - n <= j && j < L && !p._stack[j].Bounds.Empty && arg2 == p._stack[j].Bounds.End && (forall k int :: {p._stack[k]} j < k && k < L ==> p._stack[k].Bounds.Empty)
 //
 //@ func _LexerStateMachine.Reset
 //@   requires !isnil(l)
